@@ -212,6 +212,12 @@ def build():
     reg.unit("serial.close", X, extern=True, public=False,
              modifies=["ghost.serial_open", "ghost.serial_closes"],
              ensures=["serial_open == False", "serial_closes == old(serial_closes) + 1"], returns="none")
+    # the constructor without a port (with a port it calls connect(), which is not under contract): the monitor keeps exactly what it was given -
+    # in particular the terminator that write() appends, also when it is the empty string
+    reg.unit("SerialMonitor.__init__", SERIAL, is_init=True,
+             params={"baud_rate": "int", "port": "none", "timeout": "real|int", "newline": "str"},
+             raises={"ValueError": "baud_rate <= 0"},
+             ensures=["self.baud_rate == baud_rate", "is_none(self.port)", "self.timeout == timeout", "self.newline == newline", "is_none(self._serial)"])
     reg.unit("SerialMonitor.write", SERIAL, params={"value": "int|real|bool|str|none|any"}, returns="str",
              modifies=["ghost.wire"],
              ensures=["result == str(value)",
